@@ -1,6 +1,6 @@
 (* C07 - Pauli grouping and its measurement scheme are sound.
    meas_rot (the rotation gates per Pauli) comes from QPG.measrot, regenerated from /repo. *)
-From Coq Require Import ZArith NArith List Bool Permutation.
+From Coq Require Import ZArith NArith List Bool Permutation Reals.
 From QP Require Import Cx Apply Gates.
 From QP Require Import Asum.
 From QPM Require Import Pauli CompBasis Measure Grouping Reconstruct BitwiseGrouping Expect.
@@ -98,3 +98,8 @@ Proof.
   intros m Q psi b0 HQ Hin. apply ip_iso; [exact HQ|].
   apply (V_iso meas_rot measurement_rotations_are_unitary Q m Hin).
 Qed.
+
+(* ... and that eigenvalue sign is exactly the value of the reconstructor on the outcome word *)
+Theorem eigenvalue_sign_is_the_reconstructor_value :
+  forall l bits, NoDup (keys l) -> zsign l (fun i => N.testbit bits (N.of_nat i)) = RtoC (IZR (reconstruct l bits)).
+Proof. exact zsign_is_the_reconstructor_value. Qed.
